@@ -10,6 +10,7 @@ import Driver.Json
 import Driver.ArpCache
 import Driver.Iface
 import Driver.Socks
+import Driver.Bpf
 
 /-!
 Line-protocol driver: one case per input line, `tag \t fields… \t observed`, one answer per line,
@@ -29,6 +30,8 @@ def dispatch (line : String) : String :=
   | "fill" :: rest => (handleFill rest).getD "BAD-CASE\t0"
   | "live" :: rest => (handleLive rest).getD "BAD-CASE\t0"
   | "iface" :: rest => (handleIface rest).getD "BAD-CASE\t0"
+  | "bpfr" :: rest => (handleBpfr rest).getD "BAD-CASE\t0"
+  | "c03" :: rest => (handleC03 rest).getD "BAD-CASE\t0"
   | "pports" :: rest => (handlePPorts rest).getD "BAD-CASE\t0"
   | "prate" :: rest => (handlePRate rest).getD "BAD-CASE\t0"
   | "ppayload" :: rest => (handlePPayload rest).getD "BAD-CASE\t0"
